@@ -1,8 +1,11 @@
 package support
 
+import "sync"
+
 type Supporter struct {
-	progress int  // The progress of the analysis
-	stop     bool // If the analysis is stoped
+	progress   int  // The progress of the analysis
+	stop       bool // If the analysis is stoped
+	sync.Mutex      // Supporter is shared by the computing threads
 }
 
 // Returns the progress of the analysis
@@ -15,21 +18,29 @@ func NewSupporter() *Supporter {
 
 // Returns the progress of the analysis
 func (sup *Supporter) Progress() int {
+	sup.Lock()
+	defer sup.Unlock()
 	return sup.progress
 }
 
 // Increments the progress of the analysis
 func (sup *Supporter) IncrementProgress() {
+	sup.Lock()
+	defer sup.Unlock()
 	sup.progress++
 }
 
 // Tells the supported to stop the analysis
 // It will just finish the current computations
 func (sup *Supporter) Cancel() {
+	sup.Lock()
+	defer sup.Unlock()
 	sup.stop = true
 }
 
 // Tells if hasbeen canceled or not
 func (sup *Supporter) Canceled() bool {
+	sup.Lock()
+	defer sup.Unlock()
 	return sup.stop
 }
